@@ -1,6 +1,7 @@
 """C19 Lookup tables and compile-time fixed-point maths match their references (structural clauses)."""
 import ast
 import math
+import re
 
 from ..astutil import calls_in, call_name, dotted, norm, try_fold, walk_no_nested
 from ..cfg import cfg_of
@@ -219,6 +220,13 @@ def _lut_functions(repo, rep):
     rep.check(n >= 4, "C19-e", GO, "table function sites found for sigmoid, tanh, exp, sqrt", f"{n} sites")
 
 
+REVIEWED_ADDITIONS = {
+    ("downscale_multiplier_int32_to_int16", "a + rounding_offset"): "reached only below int32 max - rounding_offset (the saturating branch returns first)",
+    ("exp_on_interval_between_negative_one_quarter_and_0_excl", "a + (1 << offset)"): "a lies in (-1/4, 0] in Q0.31: the sum stays below 2^29",
+    ("exp_on_negative_values", "a_mod_quarter_minus_one_quarter - a"): "difference of two values in [-2^31, 0]: magnitude below 2^31, formed from results of & and - on Python / 64-bit intermediates",
+}
+
+
 def run(repo, rep):
     rep.clause("C19-a", "every 8-bit table has one entry per input code: range(256) for uint8 else range(-128, 128), exactly one append per iteration")
     rep.clause("C19-b", "every entry is rounded explicitly and clamped to the quantised range of the same loop before it is stored")
@@ -314,6 +322,12 @@ def run(repo, rep):
                 tainted.add(s.targets[0].id)
             elif not has_raw(v, tainted):
                 tainted.discard(s.targets[0].id)
+        # value operands (not bit counts / shift amounts, which are small by construction) and locals copied from them
+        small = re.compile(r"bits|shift|exponent|offset")
+        value_tainted = {p_ for p_ in params if not small.search(p_)}
+        for s in sorted((x for x in walk_no_nested(fn) if isinstance(x, ast.Assign) and len(x.targets) == 1 and isinstance(x.targets[0], ast.Name)), key=lambda x: x.lineno):
+            if isinstance(s.value, ast.Name) and s.value.id in value_tainted:
+                value_tainted.add(s.targets[0].id)
         for node in walk_no_nested(fn):
             if isinstance(node, ast.BinOp) and isinstance(node.op, (ast.Mult, ast.LShift)):
                 ops_ = [node.left, node.right]
@@ -331,8 +345,17 @@ def run(repo, rep):
                     rep.bad("C19-c", site, norm(par)[:80], f"the product of caller-typed operands {[o.id for o in raw]} is formed first and widened afterwards: with NumPy fixed-width operands it wraps before the widening")
                 else:
                     rep.bad("C19-c", site, norm(node)[:80], f"growing operation on the caller-typed operand {[o.id for o in raw]} without widening (int() / np.int64()): NumPy fixed-width scalars wrap or raise where the reference saturates")
-            elif isinstance(node, ast.BinOp) and isinstance(node.op, ast.Mult):
-                pass
+            elif (isinstance(node, ast.BinOp) and isinstance(node.op, (ast.Add, ast.Sub)) and any(isinstance(o, ast.Name) and o.id in value_tainted for o in (node.left, node.right))) or (
+                    isinstance(node, ast.UnaryOp) and isinstance(node.op, ast.USub) and isinstance(node.operand, ast.Name) and node.operand.id in value_tainted):
+                # additions / negations of a caller-typed operand overflow only at the ends of its type: the existing ones are reviewed (each is
+                # guarded by a range test or works on a bounded domain); a new one is reported
+                key = (q, str(norm(node)))
+                n += 1
+                if key in REVIEWED_ADDITIONS:
+                    rep.ok("C19-c", f"{FP}:{q}", str(norm(node))[:80], "reviewed: " + REVIEWED_ADDITIONS[key])
+                else:
+                    rep.bad("C19-c", f"{FP}:{q}", str(norm(node))[:80], "addition / negation of the caller-typed operand in its own type: a NumPy fixed-width value near the end of its range wraps "
+                            "(rounding_divide_by_pot(np.int32(2147483647), 1) = -1073741824) - widen with int() first or keep to &, >> and comparisons")
         # positive instances: widened products
         for node in walk_no_nested(fn):
             if isinstance(node, ast.BinOp) and isinstance(node.op, ast.Mult) and all(isinstance(o, ast.Call) and call_name(o) in WIDEN for o in (node.left, node.right)):
@@ -458,6 +481,9 @@ def run(repo, rep):
     rule_round10(repo, rep)
     rep.clause("C19-p", "a rewrite that decides on a quantised constant decides on its real value, (code - zero point) * scale: no raw code is compared with a numeric literal or stored as a real-valued alpha")
     rule_raw_code_comparisons(repo, rep)
+    rep.clause("C19-q", "the table generators evaluate the real function at the real input: finite_lut_value passes its argument unchanged and replaces only an OverflowError")
+    rep.clause("C19-r", "the softmax exp table's input scaling is saturated at 2^31 - 1 before it is quantised (reference clamp)")
+    rule_round11(repo, rep)
     rep.clause("C19-o", "a table is a function of the operator it is built for: the table modules keep no process-wide memo of generated tables [rule shared with C14-a]")
     from . import c14 as _c14
 
@@ -809,3 +835,36 @@ def rule_raw_code_comparisons(repo, rep):
                     rep.check(not (isinstance(v, ast.Name) and v.id in raw), "C19-p", f"{m.rel}:{q}", f"`{str(norm(st))[:70]}` stores a real-valued alpha", "the raw code of the constant is stored as alpha")
     if n < 2:
         raise AnalysisError(f"alpha stores / raw constant comparisons in the graph optimiser: {n} found")
+
+
+def rule_round11(repo, rep):
+    """(q) finite_lut_value evaluates the table function at the given argument (the call takes the parameter unchanged: clamping the argument
+    flattens Sqrt / Log / Gelu tables above the clamp) and only replaces an OverflowError by infinity.
+    (r) the 8-bit softmax exp table quantises beta * input_scale * 2^26 saturated at 2^31 - 1 (the reference's clamp): quantise_scale gives
+    the invalid encoding (0, 16) beyond it and every table entry would become 0x7fffffff."""
+    lm = repo.mod("lut")
+    fn = lm.func("finite_lut_value")
+    site = "ethosu/vela/lut.py:finite_lut_value"
+    params = [a.arg for a in fn.args.args]
+    calls = [c for c in ast.walk(fn) if isinstance(c, ast.Call) and isinstance(c.func, ast.Name) and c.func.id == params[0]]
+    rep.check(len(calls) == 1 and len(calls[0].args) == 1 and isinstance(calls[0].args[0], ast.Name) and calls[0].args[0].id == params[1], "C19-q", site,
+              f"the table function is evaluated at the given argument `{params[1]}`", f"called as `{str(norm(calls[0])) if calls else None}`: the argument is altered - a Sqrt / Log / Gelu table is flat beyond the clamp")
+    handlers = [h for t in ast.walk(fn) if isinstance(t, ast.Try) for h in t.handlers]
+    rep.check(any(str(norm(h.type)) == "OverflowError" for h in handlers if h.type is not None), "C19-q", site, "only an OverflowError of the table function is replaced (by infinity, then clamped)", "no OverflowError handler")
+    sm = repo.mod("softmax").func("SoftMax.generate_exp_table")
+    ssite = "ethosu/vela/softmax.py:SoftMax.generate_exp_table"
+    qs = [c for c in ast.walk(sm) if isinstance(c, ast.Call) and (call_name(c) or "").endswith("quantise_scale")]
+    if len(qs) != 1 or not isinstance(qs[0].args[0], ast.Name):
+        raise AnalysisError("generate_exp_table: quantise_scale call not found")
+    arg = qs[0].args[0].id
+    defs = [st.value for st in ast.walk(sm) if isinstance(st, ast.Assign) and str(norm(st.targets[0])) == arg]
+    ok = False
+    if len(defs) == 1 and isinstance(defs[0], ast.Call) and call_name(defs[0]) == "min" and len(defs[0].args) == 2:
+        bounds = []
+        for a in defs[0].args:
+            e = a.args[0] if isinstance(a, ast.Call) and (call_name(a) or "").split(".")[-1] in ("double", "float64", "float") and a.args else a
+            v = try_fold(e, default=None)
+            if isinstance(v, (int, float)):
+                bounds.append(v)
+        ok = any(abs(b - (2 ** 31 - 1)) < 1 for b in bounds)
+    rep.check(ok, "C19-r", ssite, f"`{arg}` is saturated at 2^31 - 1 before quantise_scale", f"`{str(norm(defs[0]))[:90] if defs else None}`: no saturation - for beta * input_scale >= 32 quantise_scale returns (0, 16) and all 256 exp entries become 0x7fffffff")
